@@ -13,6 +13,7 @@ Inductive prog :=
 | Seq (a b : prog)
 | Forever (p : prog)          (* while true do p end: an iteration whose body took no tick costs one (loop overhead adds up) *)
 | Pcall (p : prog)            (* pcall(function() p end) *)
+| Nested (p : prog)           (* frame:preprocess("{{#invoke:m|f}}") with f = p: runs under the same hook; its error comes back as text *)
 | ClearHook                   (* _lua_clear_timeout_hook() *)
 | RaiseLimit (extra : nat).   (* _lua_set_timeout(t) *)
 
@@ -50,6 +51,10 @@ Fixpoint exec (fuel : nat) (p : prog) (s : st) : option res :=    (* None: fuel 
                  | Some (Timeout s') => Some (Ok s')        (* the error is caught like any other *)
                  | r => r
                  end
+    | Nested q => match exec f q s with
+                  | Some (Timeout s') => Some (Ok s')       (* turned into the call's in-band error text at the Python boundary *)
+                  | r => r
+                  end
     | ClearHook => Some (Ok (mkst (now s) false (deadline s)))
     | RaiseLimit e => Some (Ok (mkst (now s) (hook s) (deadline s + e)))
     end
@@ -61,5 +66,5 @@ Fixpoint plain (p : prog) : bool :=
   | Finite _ | Loop => true
   | Seq a b => plain a && plain b
   | Forever q => plain q
-  | Pcall _ | ClearHook | RaiseLimit _ => false
+  | Pcall _ | Nested _ | ClearHook | RaiseLimit _ => false
   end.
